@@ -70,19 +70,31 @@ func w8Gen(r *rand.Rand, prop, tier string) *simrt.Case {
 			c.Program = append(c.Program, op)
 		}
 	}
+	if r.IntN(4) == 0 {
+		// handlers held back at a lock of the auth manager or the rate limiter (a goroutine that does not get the CPU):
+		// requests then take time, cross expiry instants and overlap each other for longer
+		for k := 0; k < 1+r.IntN(3); k++ {
+			c.Faults = append(c.Faults, simrt.Fault{Kind: "sched.stall", Op: "sched.lock", Nth: r.IntN(120), Count: 1,
+				Arg: []int64{1e6, 400e6, 1500e6, 3000e6, 61000e6}[r.IntN(5)]})
+		}
+	}
 	return c
 }
 
+// A request takes no virtual time unless its handler is held back (sched.stall), so the instants the
+// server reads its clock at are only known to lie between the call and its return.
 type w8tok struct {
-	issued   time.Duration
-	expiry   time.Duration
+	issued   time.Duration // login called
+	expiry   time.Duration // earliest possible expiry (issued at the call)
+	expiryHi time.Duration // latest possible expiry (issued at the return)
 	outCall  int // step at which a logout of it was invoked (0 = never)
 	outRet   int
 }
 
 type w8login struct {
 	addr string
-	t    time.Duration
+	t    time.Duration // called
+	tRet time.Duration // returned
 }
 
 func w8Run(t *testing.T, c *simrt.Case, prop string, keepTrace bool) simrt.Result {
@@ -156,16 +168,21 @@ func w8Run(t *testing.T, c *simrt.Case, prop string, keepTrace bool) simrt.Resul
 						now := s.Now()
 						rec := do(http.MethodPost, "/ui/api/auth/login", body)
 						s.Probe("c38.login")
+						nowRet := s.Now()
+						if nowRet != now {
+							s.Probe("c38.login-took-time")
+						}
 						if rec.Code != http.StatusTooManyRequests {
-							processed = append(processed, w8login{host, now})
+							processed = append(processed, w8login{host, now, nowRet})
+							// attempts that the limiter saw, whatever the exact instants, within the window ending at nowRet
 							n := 0
 							for _, p := range processed {
-								if p.addr == host && p.t > now-w8Window && p.t <= now {
+								if p.addr == host && p.t > nowRet-w8Window && p.tRet <= nowRet {
 									n++
 								}
 							}
 							if n > w8Limit {
-								s.Fail("C38", "login-rate-limit-exceeded", "address %s had %d login attempts processed within one %v window ending at t=%v (limit %d)", host, n, w8Window, now, w8Limit)
+								s.Fail("C38", "login-rate-limit-exceeded", "address %s had %d login attempts processed within one %v window ending at t=%v (limit %d)", host, n, w8Window, nowRet, w8Limit)
 								return
 							}
 						} else {
@@ -178,7 +195,7 @@ func w8Run(t *testing.T, c *simrt.Case, prop string, keepTrace bool) simrt.Resul
 							}
 							for _, ck := range rec.Result().Cookies() {
 								if ck.Name == sessionCookieName && ck.Value != "" {
-									tokens[ck.Value] = &w8tok{issued: now, expiry: now + w8TTL}
+									tokens[ck.Value] = &w8tok{issued: now, expiry: now + w8TTL, expiryHi: nowRet + w8TTL}
 									tokenList = append(tokenList, ck.Value)
 									mine = ck.Value
 								}
@@ -198,7 +215,7 @@ func w8Run(t *testing.T, c *simrt.Case, prop string, keepTrace bool) simrt.Resul
 						now, call := s.Now(), s.Step()
 						method := http.MethodGet
 						rec := do(method, path, "")
-						ret := s.Step()
+						ret, nowRet := s.Step(), s.Now()
 						s.Probe("c38.protected-request")
 						served := rec.Code != http.StatusUnauthorized && rec.Code != http.StatusServiceUnavailable
 						tk := tokens[cookie]
@@ -208,10 +225,10 @@ func w8Run(t *testing.T, c *simrt.Case, prop string, keepTrace bool) simrt.Resul
 								s.Fail("C38", "served-without-issued-token", "%s with cookie %q (never issued) answered %d", path, cookie, rec.Code)
 								return
 							}
-						case now > tk.expiry:
+						case now > tk.expiryHi:
 							s.Probe("c38.expired-token-used")
 							if served {
-								s.Fail("C38", "served-expired-session", "%s answered %d with a token issued at t=%v, %v after its 12h expiry", path, rec.Code, tk.issued, now-tk.expiry)
+								s.Fail("C38", "served-expired-session", "%s answered %d with a token issued at t=%v, %v after its 12h expiry", path, rec.Code, tk.issued, now-tk.expiryHi)
 								return
 							}
 						case tk.outRet != 0 && tk.outRet < call:
@@ -220,6 +237,9 @@ func w8Run(t *testing.T, c *simrt.Case, prop string, keepTrace bool) simrt.Resul
 								s.Fail("C38", "served-logged-out-session", "%s answered %d with a token whose logout completed at step %d (request at step %d)", path, rec.Code, tk.outRet, call)
 								return
 							}
+						case nowRet > tk.expiry:
+							// the session may have lapsed while the request was being handled: either answer is fine
+							s.Probe("c38.expiry-during-request")
 						case tk.outCall != 0 && tk.outCall <= ret:
 							// a logout overlaps this request: either answer is fine
 						default:
